@@ -12,11 +12,16 @@ from . import build, harness as H
 NATIVE = os.path.join(VERIF, 'native')
 
 
+NONREENTRANT = ('localtime', 'gmtime', 'ctime', 'asctime', 'getpwuid', 'getpwnam', 'getgrgid', 'getgrnam', 'ttyname', 'getlogin', 'strtok', 'strerror')
+
+
 def build_thr(variant, san='asan', fn=False, repo=None, io=False):
     extra = ['-finstrument-functions'] if fn else []
     if io:
         extra += ['-Dwrite=vs_write', '-Dwritev=vs_writev', '-Dclose=vs_close', '-Dfprintf=vs_fprintf', '-Dprintf=vs_printf', '-Dfputs=vs_fputs', '-Dfputc=vs_fputc', '-Dputs=vs_puts',
                   '-Dfwrite=vs_fwrite', '-Dfflush=vs_fflush', '-Dumask=vs_umask', '-Dopen=vs_open']
+    # non-reentrant libc calls: redirected to instrumented stand-ins with a scheduling point (native/nonreentrant.c)
+    extra += ['-D%s=vs_%s' % (f, f) for f in NONREENTRANT]
     v = build.build_variant(variant, san=san, sched=True, extra_cflags=extra, repo=repo)
     rec = build.build_shared('librec.so', [os.path.join(NATIVE, 'rec.c')])
     # the scheduler itself: no sanitizer, no instrumentation
@@ -24,7 +29,7 @@ def build_thr(variant, san='asan', fn=False, repo=None, io=False):
     r = sh(['gcc', '-O1', '-g', '-c', os.path.join(NATIVE, 'vsched.c'), '-o', vo, '-I' + NATIVE])
     if r.returncode:
         raise build.BuildError('vsched: ' + r.stderr.decode()[:2000])
-    v['h_thr'] = build.link_harness(v, os.path.join(v['dir'], 'h_thr'), [os.path.join(NATIVE, 'h_thr.c'), os.path.join(NATIVE, 'seam.c')], extra_objs=[vo],
+    v['h_thr'] = build.link_harness(v, os.path.join(v['dir'], 'h_thr'), [os.path.join(NATIVE, 'h_thr.c'), os.path.join(NATIVE, 'seam.c'), os.path.join(NATIVE, 'nonreentrant.c')], extra_objs=[vo],
                                     extra_ld=['-L' + os.path.dirname(rec), '-lrec', '-Wl,-rpath,' + os.path.dirname(rec)])
     return v
 
